@@ -38,13 +38,24 @@ type runTarget struct {
 	target  Target
 	changed bool
 	data    string
+	runs    uint64
+}
+
+// stamp identifies the target's last successful execution to its dependents: the target's
+// data plus the number of times it has executed. The count makes an execution visible to
+// dependents that were not part of the build in which it happened.
+func (t *runTarget) stamp() string {
+	if t.runs == 0 {
+		return t.data
+	}
+	return fmt.Sprintf("%s#%d", t.data, t.runs)
 }
 
 func (t *runTarget) Evaluate(engine runner.Engine) error {
 	proj, label, info := t.target.Project(), t.target.Label(), t.target.info()
 
 	// Copy the current version of the data.
-	t.data = info.Data
+	t.data, t.runs = info.Data, info.Runs
 
 	// Evaluate the target's dependencies.
 	depsUpToDate := true
@@ -64,7 +75,7 @@ func (t *runTarget) Evaluate(engine runner.Engine) error {
 
 		label := deps[i]
 
-		newData := dep.Target.(*runTarget).data
+		newData := dep.Target.(*runTarget).stamp()
 		depData[label] = newData
 
 		prevData, ok := info.Dependencies[label]
@@ -118,6 +129,7 @@ func (t *runTarget) Evaluate(engine runner.Engine) error {
 			Doc:          t.target.Doc(),
 			Dependencies: depData,
 			Rerun:        true,
+			Runs:         t.runs,
 		})
 		return err
 	}
@@ -127,10 +139,12 @@ func (t *runTarget) Evaluate(engine runner.Engine) error {
 	if changed {
 		t.data = data
 	}
+	t.runs++
 	err = proj.saveTargetInfo(label, targetInfo{
 		Doc:          t.target.Doc(),
 		Dependencies: depData,
 		Data:         t.data,
+		Runs:         t.runs,
 	})
 	if err != nil {
 		proj.events.TargetFailed(label, err)
